@@ -151,11 +151,12 @@ def wire_op(op):
 
 
 class Case:
-    __slots__ = ("tag", "param", "op", "nounset", "setup", "word", "probe", "wire", "feat", "no_oracle")
+    __slots__ = ("tag", "param", "op", "nounset", "setup", "word", "probe", "wire", "feat", "no_oracle", "ref", "parts")
 
     def __init__(self, tag, param, op, nounset=False):
         self.tag, self.param, self.op, self.nounset = tag, param, op, nounset
         setup, name, probe = render_param(param)
+        self.parts = ("shopt -s extglob\n" if op[0] == "rmx" else "", setup, "\nset -u" if nounset else "")
         if op[0] == "rmx":
             setup = "shopt -s extglob\n" + setup
         if nounset:
@@ -182,12 +183,14 @@ class IndCase(Case):
     def __init__(self, tag, target, op, nounset=False, ref="ok"):
         self.tag, self.param, self.op, self.nounset = tag, target, op, nounset
         setup, name, probe = render_param(target)
+        self.parts = ("", setup, "\n" + (REF_SETUP[ref] or "r=" + sq(name)) + ("\nset -u" if nounset else ""))
         setup += "\n" + (REF_SETUP[ref] or "r=" + sq(name))
         if nounset:
             setup += "\nset -u"
         self.setup, self.word, self.probe = setup, render_op("!r", op), probe
         self.wire = "C06 %d IND %s %s %s" % (1 if nounset else 0, ref, wire_param(target), wire_op(op))
         self.feat = "ind-" + op[0]
+        self.ref = ref
         # bash's own `${!r…}` with r naming a[@] / a[*] / @ / * is not `${a[@]…}` (empty lists under nounset, a single
         # null element, $0 in slices, the $* join): list references are tied to the model only
         self.no_oracle = ref == "ok" and target[0] in ("all", "posall")
@@ -724,6 +727,225 @@ def direct_clause(c, b, o):
 
 # ----------------------------------------------------------------------------------------------
 
+# ----------------------------------------------------------------------------------------------
+# context sweep: sampled cases re-run (brush binary against bash, identical script text) in other execution
+# contexts and under options that should not matter (or that bash is given too)
+
+SWEEP_PRELUDE = r"""pf() { printf '<%d>' $#; local _x; for _x; do printf '[%s]' "$_x"; done; }
+"""
+
+# options: the oracle is bash under the same option, so each may be applied to any case
+SWEEP_OPTIONS = ["set -u", "set -f", "set -e", "set -E", "set -T", "set +h", "set -C", "shopt -s extglob", "shopt -s nullglob",
+                 "shopt -s dotglob", "shopt -s nocasematch", "shopt -s globstar", "shopt -s expand_aliases", "shopt -s lastpipe",
+                 "shopt -s inherit_errexit", "shopt -s extglob nocasematch", "set -euf"]
+SWEEP_IFS = ["IFS=:", "IFS=", "IFS=' a'", "IFS=$'\\n'", "unset IFS", "IFS=b:"]
+
+
+def _core(c, word=None):
+    return "pf %s; printf '\\2'; set +u; %s" % (word or c.word, probe_text(c.probe))
+
+
+def sweep_contexts(c, tmpdir, idx):
+    """-> list of (context name, script body) for one case; each body runs inside `( … )`"""
+    S, W = c.setup, c.word
+    core = _core(c)
+    body = S + "\n" + core
+    out = [("base", body)]
+    out.append(("function", "f() {\n%s\n}\nf" % body))
+    out.append(("function2", "g() {\n%s\n}\nf() { local zz=1; g \"$@\"; }\nf" % body))
+    out.append(("cmdsubst", "o=$(%s\n)\nprintf '%%s' \"$o\"" % body))
+    out.append(("eval", "eval " + sq(body)))
+    out.append(("eval-word", S + "\neval " + sq(core)))
+    out.append(("brace-redirect", "{\n%s\n} 2>/dev/null 3>&1" % body))
+    out.append(("lastpipe", "shopt -s lastpipe\n: | {\n%s\n}" % body))
+    out.append(("for-body", "for _i in 1 2; do\n%s\ndone" % body))
+    out.append(("while-body", "_n=0\nwhile [ $_n -lt 2 ]; do _n=$((_n+1))\n%s\ndone" % body))
+    out.append(("!trap-exit", "trap %s EXIT\n%s\nexit 0" % (sq(core), S)))     # `!`: own process (C16-3: no EXIT trap in a subshell)
+    out.append(("twice", "%s\n%s\nprintf '\\3'\n%s" % (S, core, body)))
+    out.append(("twice-word", "%s\npf %s %s; printf '\\2'; set +u; %s" % (S, W, W, probe_text(c.probe))))
+    path = os.path.join(tmpdir, "c%d.sh" % idx)
+    with open(path, "w", encoding="utf-8", errors="surrogateescape") as f:
+        f.write(body + "\n")
+    out.append(("sourced", ". " + sq(path)))
+    out.append(("sourced-in-function", "f() { . %s; }\nf" % sq(path)))
+    inner = W[1:-1]
+    op = getattr(c, "op", None)
+    assigns = bool(op and op[0] == "test" and op[1] == "=")
+    # lists stay quoted: unquoted $@ / ${a[@]} under a changed IFS is C05's ground (and bash leaks \x01 there with IFS=)
+    listy = bool(re.search(r"\[[@*]\]|\{!?[@*]|[@*]\}", W + " " + S))
+    if '"' not in inner and "\\" not in inner:
+        # (bash expands a here-document body after forking for an external command: an assignment made there is lost)
+        if not assigns:
+            out.append(("heredoc", "%s\ncat <<EOF_\n[%s]\nEOF_\nprintf '\\2'; set +u; %s" % (S, inner, probe_text(c.probe))))
+        # (the assignment word is kept for scalars: bash's null-ness of a one-null-element list differs between `[[ ]]` and `x=`)
+        out.append(("cond-case-word", "%s\n[[ -z %s ]]; printf '%%d' $?\n[[ %s == *a* ]]; printf '%%d' $?\n"
+                    "case %s in '') printf E;; *' '*) printf S;; *) printf O;; esac\n%sprintf '\\2'; set +u; %s"
+                    % (S, inner, inner, inner, "" if listy else "x=%s; printf '[%%s]' \"$x\"\n" % inner, probe_text(c.probe))))
+        if not listy:
+            out.append(("unquoted-set-f", "%s\nset -f\n%s" % (S, _core(c, inner))))
+            for ifs in ("IFS=:", "IFS=", "IFS=' a'"):
+                out.append(("unquoted " + ifs, "%s\nset -f; %s\n%s" % (S, ifs, _core(c, inner))))
+    for opt in SWEEP_OPTIONS:
+        out.append(("opt " + opt, opt + "\n" + body))
+    for ifs in SWEEP_IFS:
+        out.append((ifs, S + "\n" + ifs + "\n" + core))
+        out.append((ifs + " in function", "f() {\nlocal IFS\n%s\n%s\n%s\n}\nf" % (S, ifs, core)))
+    # binding-specific contexts
+    prm = getattr(c, "param", None)
+    ind = isinstance(c, IndCase)
+    parts = getattr(c, "parts", None)
+    rest = ((parts[0] + parts[2].lstrip("\n")).strip("\n") + "\n") if parts and (parts[0] or parts[2]) else ""
+    if prm is not None and parts is not None:
+        k = prm[0]
+        # (a reference that cannot be followed is kept out: bash treats `local r; unset r; ${!r-w}` as a declared name)
+        if k in ("named", "elem", "all") and not (ind and c.ref != "ok"):
+            # locals hiding globals of another value
+            out.append(("local-hides-global", "v=GG; a=(G1 G2 G3 G4); declare -A A=([k]=GK [x]=GX); r=GR\n"
+                        "f() {\nlocal v a r; local -A A\nunset v a A r\n%s\n}\nf\nprintf '\\4%%s' \"${v-}\" \"${a[*]-}\" \"${r-}\"" % body
+                        if False else
+                        "v=GG; a=(G1 G2 G3 G4); r=GR\nf() {\nlocal v a r\n%s\n}\nf\nprintf '\\4%%s.' \"${v-}\" \"${a[*]-}\" \"${r-}\"" % body))
+            out.append(("local-hides-global-2deep", "v=GG; a=(G1 G2 G3 G4); r=GR\ng() {\n%s\n}\nf() {\nlocal v=FF a=(F1) r=FR\ng\n}\nf" % body))
+        if k == "named" and prm[1] is not None and not ind:
+            out.append(("temporary-binding", "f() {\n%s%s\n}\nv=OTHER\nv=%s f\nprintf '\\4%%s' \"$v\""
+                        % (rest, core, sq(prm[1]))))
+        if k in ("pos", "posall") and not ind:
+            args = [prm[1]] if k == "pos" and prm[1] is not None else ([] if k == "pos" else prm[1])
+            out.append(("function-args", "set -- X1 'Y 2' Z3 W4\nf() {\n%s%s\n}\nf %s\nprintf '\\4%%s' \"$*\""
+                        % (rest, core, " ".join(sq(a) for a in args))))
+        if k == "all" and not prm[3] and not ind:
+            out.append(("local-a-copy", "src=(%s)\na=(G1 G2 G3 G4 G5)\nf() {\nlocal -a a=(\"${src[@]}\")\n%s%s\n}\nf\nprintf '\\4%%s' \"${a[*]}\""
+                        % (" ".join(sq(v) for v in prm[1]), rest, core)))
+    return out
+
+
+def run_sweep_batch(which, bodies, timeout=900):
+    parts = [SWEEP_PRELUDE]
+    for b in bodies:
+        # bash parses the whole `( … )` before running it: extglob must be on when an unquoted extglob pattern is read
+        ext = "shopt -s extglob" in b
+        parts.append("%s(\n%s\n) 2>/dev/null\nprintf '\\1X%%d\\1\\n' $?\n%s"
+                     % ("shopt -s extglob\n" if ext else "", b, "shopt -u extglob\n" if ext else ""))
+    base = [lib.BRUSH, "--norc", "--noprofile", "--no-config"] if which == "brush" else [lib.BASH, "--norc", "--noprofile"]
+    try:
+        p = subprocess.run(base + ["-c", "".join(parts), "sh0"], stdin=subprocess.DEVNULL, stdout=subprocess.PIPE,
+                           stderr=subprocess.DEVNULL, env=dict(lib.BASE_ENV), timeout=timeout, cwd=lib.BUILD if False else None)
+        out = p.stdout.decode("utf-8", "replace")
+    except subprocess.TimeoutExpired:
+        out = ""
+    res = []
+    for m in re.finditer(r"(.*?)\x01X(\d+)\x01\n", out, re.S):
+        res.append(m.group(1) + ("" if m.group(2) == "0" else "\x05FAIL"))
+    if len(res) != len(bodies):
+        res = (res + ["<shell-died>"] * len(bodies))[:len(bodies)]
+    return res
+
+
+def run_sweep_parallel(which, bodies, per=120):
+    chunks = [bodies[i:i + per] for i in range(0, len(bodies), per)]
+    rs = lib.pmap(lambda ch: run_sweep_batch(which, ch), chunks)
+    return [x for r in rs for x in r]
+
+
+def _flat(t, drop_empty=False):
+    if drop_empty:
+        t = t.replace("[]", "")
+    return re.sub(r"<\d+>|[\[\] ]", "", t)
+
+
+def sweep_clause(c, name, b, o):
+    """recorded defect class a context-only difference belongs to (or None)"""
+    w = c.word
+    if re.search(r"@[aA]\}", w):
+        return "transform_attr_on_unset_or_list"          # nounset / lists, now reached through `set -u` or splitting
+    if o.endswith("\x05FAIL") and "\x04" in b and not b.startswith("<") and "\x04" not in o:
+        # the expansion fails inside a function: bash abandons the whole enclosing command, brush resumes after the call
+        return "expansion_error_in_function_resumes_caller"
+    starry = "*" in w or "[*]'" in c.setup or "r='*'" in c.setup
+    if name in ("IFS=", "IFS= in function", "unquoted IFS=") and starry and _flat(b) == _flat(o):
+        return "star_join_ignores_empty_ifs"              # C05-2 seen through the operators
+    if name in ("unquoted IFS=' a'", "unquoted IFS=:") and _flat(b, True) == _flat(o, True):
+        return "unquoted_split_drops_empty_fields_of_nonwhitespace_ifs"
+    return None
+
+
+def context_sweep(ctx, cases, bouts, oouts, n):
+    """re-run a seeded sample of the cases on which brush and bash agree at top level in every context / option"""
+    import tempfile
+    import shutil
+    rng = ctx.rng
+    pool = [i for i, c in enumerate(cases) if same(bouts[i], oouts[i]) and head(bouts[i]) != "PANIC"
+            and not getattr(c, "no_oracle", False)]
+    # stratify by feature so that every operator family is present
+    by = {}
+    for i in pool:
+        by.setdefault(cases[i].feat, []).append(i)
+    picked = []
+    feats = sorted(by)
+    while len(picked) < n and feats:
+        for f in list(feats):
+            if not by[f]:
+                feats.remove(f)
+                continue
+            picked.append(by[f].pop(rng.randrange(len(by[f]))))
+            if len(picked) >= n:
+                break
+    tmpdir = tempfile.mkdtemp(prefix="c06sweep-")
+    try:
+        items = []
+        for j, i in enumerate(picked):
+            for name, body in sweep_contexts(cases[i], tmpdir, j):
+                items.append((i, name, body))
+        own = [k for k, it in enumerate(items) if it[1].startswith("!")]
+        shared = [k for k, it in enumerate(items) if not it[1].startswith("!")]
+        allb = [b for _, _, b in items]
+        bodies = [allb[k] for k in shared]
+        br = run_sweep_parallel("brush", bodies)
+        # a panic takes the rest of a brush batch down: re-run what was lost one by one
+        lost = [k for k, r in enumerate(br) if r == "<shell-died>"]
+        if lost:
+            rr = lib.pmap(lambda k: run_sweep_batch("brush", [bodies[k]])[0], lost[:ctx.size(400, 4000)])
+            for k, r in zip(lost, rr):
+                br[k] = r
+        ba = run_sweep_parallel("bash", bodies)
+        # contexts that need a process of their own (an EXIT trap of the main shell)
+        def solo(which, k):
+            base = [lib.BRUSH, "--norc", "--noprofile", "--no-config"] if which == "brush" else [lib.BASH, "--norc", "--noprofile"]
+            try:
+                p = subprocess.run(base + ["-c", SWEEP_PRELUDE + allb[k], "sh0"], stdin=subprocess.DEVNULL, stdout=subprocess.PIPE,
+                                   stderr=subprocess.DEVNULL, env=dict(lib.BASE_ENV), timeout=60)
+                return p.stdout.decode("utf-8", "replace") + ("" if p.returncode == 0 else "\x05FAIL")
+            except subprocess.TimeoutExpired:
+                return "<timeout>"
+        obr = lib.pmap(lambda k: solo("brush", k), own)
+        oba = lib.pmap(lambda k: solo("bash", k), own)
+        fbr, fba = [None] * len(items), [None] * len(items)
+        for k, r in zip(shared, br):
+            fbr[k] = r
+        for k, r in zip(shared, ba):
+            fba[k] = r
+        for k, r in zip(own, obr):
+            fbr[k] = r
+        for k, r in zip(own, oba):
+            fba[k] = r
+        br, ba = fbr, fba
+    finally:
+        shutil.rmtree(tmpdir, ignore_errors=True)
+    nviol = 0
+    for (i, name, body), b, o in zip(items, br, ba):
+        ctx.count(("sweep", cases[i].key(), name), nontrivial=False, bucket="sweep:" + name.split(" ")[0])
+        ctx.impl_validated += 1
+        if b == o:
+            continue
+        case = {"context": name, "script": body, "brush": b, "bash": o, "setup": cases[i].setup, "word": cases[i].word}
+        cl = sweep_clause(cases[i], name, b, o)
+        if cl:
+            ctx.known_or_violation(cl, "brush and bash differ in context '%s' (they agree at top level)" % name, case)
+        elif nviol < 15:
+            nviol += 1
+            ctx.violation("brush and bash differ in context '%s' although they agree on the same case at top level" % name, case)
+    return items, br, ba
+
+
 def load_corpus():
     out = []
     cdir = os.path.join(lib.ROOT, "corpus", PROP)
@@ -878,6 +1100,7 @@ def run(ctx):
     mo = iter(lib.run_drv_parallel([c.wire for c in modelled]))
     mouts = [next(mo) if c.wire else None for c in cases]
     evaluate(ctx, cases, bouts, oouts, mouts)
+    context_sweep(ctx, cases, bouts, oouts, ctx.size(400, 8000))
     # the brush binary on a sample (same batch script as bash): in-process and binary must agree
     step = max(1, len(cases) // ctx.size(1500, 12000))
     sample = [i for i in range(0, len(cases), step)]
